@@ -35,7 +35,8 @@ fn gen_gn(rng: &mut Rng, depth: usize, idx: &mut usize, collide: bool, odd: bool
         if positional { have_pos = true; }
         // a flag that may take an optional value: `SetTrue` + `num_args(0..=1)` (`--color[=false]`)
         let optval = !positional && rng.chance(1, 6);
-        let takes = positional || (!optval && rng.chance(1, 2));
+        // ... or an option whose value is optional: `Set` + `num_args(0..=1)` + `default_missing_value` (`--color[=WHEN]`)
+        let takes = positional || rng.chance(1, 2);
         let short = if !positional && rng.chance(2, 3) { Some(shorts.remove(rng.below(shorts.len()))) } else { None };
         let long = if !positional && (short.is_none() || rng.chance(2, 3)) { Some(format!("o{i}x-long")) } else { None };
         let vshorts = if short.is_some() && rng.chance(1, 4) { vec![shorts.remove(rng.below(shorts.len()))] } else { vec![] };
@@ -76,7 +77,7 @@ fn build(n: &GN) -> Command {
         for s in &a.vshorts { x = x.visible_short_alias(*s); }
         for l in &a.vlongs { x = x.visible_alias(l.clone()); }
         x = if a.takes { x.action(ArgAction::Set) } else { x.action(ArgAction::SetTrue) };
-        if a.optval { x = x.num_args(0..=1); }
+        if a.optval { x = x.num_args(0..=1); if a.takes { x = x.default_missing_value(a.pvs.first().map(|p| p.0.clone()).unwrap_or("dm".into())); } }
         if a.multi { x = x.num_args(1..); }
         if a.required { x = x.required(true); }
         if !a.pvs.is_empty() { x = x.value_parser(a.pvs.iter().map(|(n, h)| PossibleValue::new(n.clone()).hide(*h)).collect::<Vec<_>>()); }
